@@ -130,7 +130,7 @@ PROPS = {
         "level_note": "Kill = SIGKILL of the process, not power loss: the OS page cache survives, so fsync behaviour is not exercised. Timer firings (multi-transaction sweeps) are excluded from crash histories. Trusted: Coq kernel + vm_compute, Go harness, SQLite.",
         "assumptions": ["SQLite commits atomically and durably with respect to process kill (WAL mode)", "every mutating call is one transaction (checked by the kill points, not proved)", "the child's scripted clock and the recorded wall-clock second of each step stand for time in the model"],
     },
-    "C11": _kv("C11", "Proved on the model's store for every reachable store and every entry point: a call addressed to collection c leaves documents, backfill, identity and feeds of every other collection unchanged (C11_frame); DropDataStore removes exactly the collection's rows and entry (C11_drop); re-creation yields a fresh id with no documents (C11_recreate). Views and SQL queries of other collections are covered under C12/C19 models. The executable trace checker (rows, dump order and collection list outside the addressed collection unchanged; a drop removes exactly the collection; a creation yields an empty one; events carry the addressed collection's id) is proved to accept every history of the model (C11_checker_accepts_every_model_history, KvTrace.v) and is run on the implementation's traces.", model_chk=True),
+    "C11": _kv("C11", "Proved on the model's store for every reachable store and every entry point: a call addressed to collection c leaves documents, backfill, identity and feeds of every other collection unchanged (C11_frame); DropDataStore removes exactly the collection's rows and entry (C11_drop); re-creation yields a fresh id with no documents (C11_recreate). Views and SQL queries of other collections are covered under C12/C19 models. The executable trace checker (rows, dump order and collection list outside the addressed collection unchanged; a drop removes exactly the collection; a creation yields an empty one; events carry the addressed collection's id) is proved to accept every history of the model (C11_checker_accepts_every_model_history, KvTrace.v) and is run on the implementation's traces. Feeds and their checkpoint documents: the sched family runs half of its schedules on a named collection with the default collection as a bystander (checkpoints are read back from, and their events expected on, the fed collection).", model_chk=True, extra=[{"family": "sched", "chk": "sched_excused_C09"}]),
     "C18": _kv("C18", "Proved on Json.v for all documents, paths and values: a sub-document write leaves every property on a diverging path unchanged (C18_frame), the addressed property reads back as the written value (C18_set) or as absent after removal (C18_remove); CAS honoured / failure changes nothing is the C02 theorem (C18_cas). The trace checker restates WriteSubDoc/SubdocInsert/GetSubDocRaw as upsert_path/eval_path over the parsed read-back and is evaluated on implementation and model traces (acceptance of model traces checked by evaluation). The concurrent no-lost-update half is part of the interleaving model: partial.", model_chk=True),
     "C13": {
         "families": [{"family": "reg", "model_chk": True, "model_chk_fn": "kv_model_chk_reg"}],
